@@ -24,6 +24,7 @@ type Walk struct {
 	Barrier func(in ssa.Instruction) bool          // the walk does not continue past such an instruction
 	Track   *EqTrack                               // optional: follow the possible constant values of one expression
 	E       *Eng                                   // needed with Track
+	init    pctx                                   // context of the start points (FromEdgeCtx)
 }
 
 // EqTrack follows, along each path, which constants an expression (named by its canonical
@@ -301,11 +302,11 @@ func evalCond(v ssa.Value, c pctx) (val, known bool) {
 			return false, false
 		}
 		a, b := resolveCtx(x.X, c), resolveCtx(x.Y, c)
-		if a == x.X && b == x.Y {
-			return false, false // nothing was fixed by the context
-		}
 		ka, aok := a.(*ssa.Const)
 		kb, bok := b.(*ssa.Const)
+		if a == x.X && b == x.Y && !(aok && bok) {
+			return false, false // nothing was fixed by the context
+		}
 		eq, dec := false, false
 		switch {
 		case aok && bok:
@@ -361,9 +362,31 @@ func predSlot(b, s *ssa.BasicBlock) int {
 	return slot
 }
 
+// depthHint: the deepest context depth worth trying per function (lowered when a walk ran out of states).
+var depthHint = map[*ssa.Function]int{}
+
 func (w *Walk) run(startBlocks []*ssa.BasicBlock, startIdx []int) *Reached {
 	// full path contexts first; shallower ones when the function has too many phi joins
+	// the context depth a function affords is fixed by a canonical probe (uncut walk from the
+	// entry), so that it does not depend on which rule walks the function first
+	h, ok := depthHint[w.Fn]
+	if !ok {
+		h = 1
+		if len(w.Fn.Blocks) > 0 {
+			probe := &Walk{Fn: w.Fn}
+			for _, depth := range []int{ctxMax, 3} {
+				if probe.runMode([]*ssa.BasicBlock{w.Fn.Blocks[0]}, []int{0}, depth) != nil {
+					h = depth
+					break
+				}
+			}
+		}
+		depthHint[w.Fn] = h
+	}
 	for _, depth := range []int{ctxMax, 3, 1} {
+		if depth > h {
+			continue
+		}
 		if r := w.runMode(startBlocks, startIdx, depth); r != nil {
 			return r
 		}
@@ -371,22 +394,159 @@ func (w *Walk) run(startBlocks []*ssa.BasicBlock, startIdx []int) *Reached {
 	panic("walk: state space exhausted in " + fnName(w.Fn))
 }
 
+// Branch correlation: a path that has taken "err != nil" as true cannot later take the same
+// test of the same value as false (a flattened helper returns its error and the caller tests it
+// again).  Facts are keyed by SSA value identity, kept only for values tested by more than one
+// branch, and dropped on loop back edges.
+type condKey struct {
+	a, b ssa.Value
+	ks   string
+}
+
+type condFacts struct {
+	n int8
+	k [3]condKey
+	v [3]bool
+}
+
+func (f condFacts) get(k condKey) (bool, bool) {
+	for i := 0; i < int(f.n); i++ {
+		if f.k[i] == k {
+			return f.v[i], true
+		}
+	}
+	return false, false
+}
+
+func (f condFacts) with(k condKey, v bool) condFacts {
+	if _, ok := f.get(k); ok {
+		return f
+	}
+	if int(f.n) == len(f.k) {
+		copy(f.k[:], f.k[1:])
+		copy(f.v[:], f.v[1:])
+		f.n--
+	}
+	f.k[f.n], f.v[f.n] = k, v
+	f.n++
+	return f
+}
+
+func constKey(k *ssa.Const) string { return constStr(k) + ":" + k.Type().String() }
+
+// condKeyOf names the proposition a branch condition tests under a path context.
+func condKeyOf(v ssa.Value, c pctx) (key condKey, neg, ok bool) {
+	for i := 0; i < 8; i++ {
+		if u, isU := v.(*ssa.UnOp); isU && u.Op == token.NOT {
+			neg = !neg
+			v = u.X
+			continue
+		}
+		if p, isP := v.(*ssa.Phi); isP {
+			if rv := resolveCtx(p, c); rv != ssa.Value(p) {
+				v = rv
+				continue
+			}
+		}
+		break
+	}
+	if _, isK := v.(*ssa.Const); isK {
+		return key, neg, false
+	}
+	if b, isB := v.(*ssa.BinOp); isB && (b.Op == token.EQL || b.Op == token.NEQ) {
+		x, y := resolveCtx(b.X, c), resolveCtx(b.Y, c)
+		if b.Op == token.NEQ {
+			neg = !neg
+		}
+		kx, xk := x.(*ssa.Const)
+		ky, yk := y.(*ssa.Const)
+		switch {
+		case xk && yk:
+			return key, neg, false
+		case yk:
+			return condKey{a: x, ks: "==" + constKey(ky)}, neg, true
+		case xk:
+			return condKey{a: y, ks: "==" + constKey(kx)}, neg, true
+		}
+		return condKey{a: x, b: y, ks: "=="}, neg, true
+	}
+	return condKey{a: v}, neg, true
+}
+
+var sharedCondCache = map[*ssa.Function]map[ssa.Value]int{}
+
+// sharedConds counts, per SSA value, the branches of fn whose condition tests it.
+func sharedConds(fn *ssa.Function) map[ssa.Value]int {
+	if m, ok := sharedCondCache[fn]; ok && len(fn.Blocks) == m[nil] {
+		return m
+	}
+	m := map[ssa.Value]int{}
+	for _, b := range fn.Blocks {
+		if len(b.Instrs) == 0 {
+			continue
+		}
+		iff, ok := b.Instrs[len(b.Instrs)-1].(*ssa.If)
+		if !ok {
+			continue
+		}
+		seen := map[ssa.Value]bool{}
+		var add func(v ssa.Value, d int)
+		add = func(v ssa.Value, d int) {
+			if v == nil || d > 4 {
+				return
+			}
+			for {
+				if u, isU := v.(*ssa.UnOp); isU && u.Op == token.NOT {
+					v = u.X
+					continue
+				}
+				break
+			}
+			if _, isK := v.(*ssa.Const); isK || seen[v] {
+				return
+			}
+			seen[v] = true
+			switch x := v.(type) {
+			case *ssa.Phi:
+				for _, ed := range x.Edges {
+					add(ed, d+1)
+				}
+			case *ssa.BinOp:
+				if x.Op == token.EQL || x.Op == token.NEQ {
+					add(x.X, d+1)
+					add(x.Y, d+1)
+				}
+			}
+		}
+		add(iff.Cond, 0)
+		for v := range seen {
+			m[v]++
+		}
+	}
+	m[nil] = len(fn.Blocks)
+	sharedCondCache[fn] = m
+	return m
+}
+
 func (w *Walk) runMode(startBlocks []*ssa.BasicBlock, startIdx []int, depth int) *Reached {
+	shared := sharedConds(w.Fn)
 	r := &Reached{Instr: map[ssa.Instruction]bool{}, Edge: map[[2]int]bool{}, Block: map[int]bool{}, Ctx: map[int][]pctx{}, Mask: map[int]uint32{}}
 	type pt struct {
 		b *ssa.BasicBlock
 		i int
 		c pctx
 		m uint32
+		f condFacts
 	}
 	type sk struct {
 		b int
 		c pctx
 		m uint32
+		f condFacts
 	}
 	var work []pt
 	for k, b := range startBlocks {
-		work = append(work, pt{b, startIdx[k], pctx{}, ^uint32(0)})
+		work = append(work, pt{b, startIdx[k], w.init, ^uint32(0), condFacts{}})
 	}
 	seen := map[sk]bool{}
 	midSeen := map[ssa.Instruction]bool{}
@@ -395,7 +555,7 @@ func (w *Walk) runMode(startBlocks []*ssa.BasicBlock, startIdx []int, depth int)
 		p := work[len(work)-1]
 		work = work[:len(work)-1]
 		if p.i == 0 {
-			k := sk{p.b.Index, p.c, p.m}
+			k := sk{p.b.Index, p.c, p.m, p.f}
 			if seen[k] {
 				continue
 			}
@@ -442,10 +602,26 @@ func (w *Walk) runMode(startBlocks []*ssa.BasicBlock, startIdx []int, depth int)
 			}
 		}
 		var ov *condOv
+		var ck condKey
+		ckNeg, ckOK := false, false
 		if len(p.b.Instrs) > 0 {
 			if iff, ok := p.b.Instrs[len(p.b.Instrs)-1].(*ssa.If); ok {
 				if sub := phiSubFor(iff.Cond, p.c); sub != nil {
 					ov = &condOv{sub: sub}
+				}
+				if only < 0 && depth > 1 {
+					if ck, ckNeg, ckOK = condKeyOf(iff.Cond, p.c); ckOK {
+						if shared[ck.a] < 2 && (ck.b == nil || shared[ck.b] < 2) {
+							ckOK = false
+						} else if fv, known := p.f.get(ck); known {
+							// decided earlier on this path
+							if fv != ckNeg {
+								only = 0
+							} else {
+								only = 1
+							}
+						}
+					}
 				}
 			}
 		}
@@ -488,7 +664,15 @@ func (w *Walk) runMode(startBlocks []*ssa.BasicBlock, startIdx []int, depth int)
 			if startsWithPhi(s) {
 				nc = p.c.with(s.Index, predSlot(p.b, s), depth)
 			}
-			work = append(work, pt{s, 0, nc, nm})
+			nf := p.f
+			if ckOK {
+				// succ 0 is the true edge of the condition; the proposition holds iff (si==0) != neg
+				nf = nf.with(ck, (si == 0) != ckNeg)
+			}
+			if nf.n > 0 && dominates(s, p.b) {
+				nf = condFacts{} // loop back edge: values are recomputed
+			}
+			work = append(work, pt{s, 0, nc, nm, nf})
 		}
 	}
 	return r
@@ -516,6 +700,81 @@ func (w *Walk) After(ins ...ssa.Instruction) *Reached {
 		}
 	}
 	return w.run(bs, is)
+}
+
+// EdgeCtx is an edge together with the path context under which it asserts a literal: a branch
+// on a boolean joined from several paths (the result of a flattened helper) asserts, for the
+// path through each join edge, the condition that was computed on that path.
+type EdgeCtx struct {
+	B    *ssa.BasicBlock
+	Succ int
+	C    pctx
+	Lit  Lit
+}
+
+// EdgesAsserting lists the edges of fn (with contexts) that assert a literal matched by m.
+func (e *Eng) EdgesAsserting(fn *ssa.Function, m LitM) []EdgeCtx {
+	var out []EdgeCtx
+	for _, b := range fn.Blocks {
+		if len(b.Instrs) == 0 {
+			continue
+		}
+		iff, ok := b.Instrs[len(b.Instrs)-1].(*ssa.If)
+		if !ok {
+			continue
+		}
+		// strip negations to find a joined boolean
+		v, neg := iff.Cond, false
+		for {
+			if u, ok := v.(*ssa.UnOp); ok && u.Op == token.NOT {
+				neg = !neg
+				v = u.X
+				continue
+			}
+			break
+		}
+		phi, isPhi := v.(*ssa.Phi)
+		if isPhi && !isBoolType(phi.Type()) {
+			isPhi = false
+		}
+		for si := range b.Succs {
+			if !isPhi {
+				if l, ok := e.EdgeLit(b, si); ok && m.F(l) {
+					out = append(out, EdgeCtx{b, si, pctx{}, l})
+				}
+				continue
+			}
+			for j, ed := range phi.Edges {
+				if _, isK := ed.(*ssa.Const); isK {
+					continue
+				}
+				l := e.CondLit(fn, ed)
+				if neg {
+					l.Pos = !l.Pos
+				}
+				if si == 1 {
+					l.Pos = !l.Pos
+				}
+				if m.F(l) {
+					out = append(out, EdgeCtx{b, si, pctx{}.with(phi.Block().Index, j, ctxMax), l})
+				}
+			}
+		}
+	}
+	return out
+}
+
+// FromEdgeCtx walks from the target of an edge under the context in which it asserts its literal.
+func (w *Walk) FromEdgeCtx(ec EdgeCtx) *Reached {
+	w.init = ec.C
+	t := ec.B.Succs[ec.Succ]
+	if startsWithPhi(t) {
+		w.init = ec.C.with(t.Index, predSlot(ec.B, t), ctxMax)
+	}
+	r := w.run([]*ssa.BasicBlock{t}, []int{0})
+	w.init = pctx{}
+	r.Edge[[2]int{ec.B.Index, t.Index}] = true
+	return r
 }
 
 // FromEdge walks from the target of edge b -> b.Succs[succ].
@@ -640,16 +899,82 @@ func (e *Eng) EdgeLits(b *ssa.BasicBlock, succ int) []Lit {
 	return out
 }
 
-// CutLits returns a Cut function removing every edge that asserts a literal matched by any of ms.
+// splitTop splits "(x OP y)" at the top-level occurrence of " OP ".
+func splitTop(atom, op string) (x, y string, ok bool) {
+	if len(atom) < 2 || atom[0] != '(' || atom[len(atom)-1] != ')' {
+		return "", "", false
+	}
+	in := atom[1 : len(atom)-1]
+	depth := 0
+	sep := " " + op + " "
+	for i := 0; i < len(in); i++ {
+		switch in[i] {
+		case '(', '[':
+			depth++
+		case ')', ']':
+			depth--
+		case '"':
+			// skip string constants
+			for i++; i < len(in) && in[i] != '"'; i++ {
+				if in[i] == '\\' {
+					i++
+				}
+			}
+		}
+		if depth == 0 && strings.HasPrefix(in[i:], sep) {
+			return in[:i], in[i+len(sep):], true
+		}
+	}
+	return "", "", false
+}
+
+// consequences lists literals implied by l through the order axioms: a < b gives ¬(b < a) and
+// ¬(a == b); a == b gives ¬(a < b) and ¬(b < a) (for the time order <t / ==t and for < / ==).
+func consequences(l Lit) []Lit {
+	out := []Lit{l}
+	if !l.Pos {
+		return out
+	}
+	eqOf := func(a, b, op string) string {
+		if a > b {
+			a, b = b, a
+		}
+		return "(" + a + " " + op + " " + b + ")"
+	}
+	for _, atom := range []string{l.Atom, l.Alt} {
+		if atom == "" {
+			continue
+		}
+		for _, ops := range [][2]string{{"<t", "==t"}, {"<", "=="}} {
+			if a, b, ok := splitTop(atom, ops[0]); ok {
+				out = append(out, Lit{Atom: "(" + b + " " + ops[0] + " " + a + ")", Pos: false})
+				out = append(out, Lit{Atom: eqOf(a, b, ops[1]), Pos: false})
+				if ops[1] == "==" {
+					out = append(out, Lit{Atom: "(" + a + " == " + b + ")", Pos: false}, Lit{Atom: "(" + b + " == " + a + ")", Pos: false})
+				}
+			}
+			if a, b, ok := splitTop(atom, ops[1]); ok {
+				out = append(out, Lit{Atom: "(" + a + " " + ops[0] + " " + b + ")", Pos: false})
+				out = append(out, Lit{Atom: "(" + b + " " + ops[0] + " " + a + ")", Pos: false})
+			}
+		}
+	}
+	return out
+}
+
+// CutLits returns a Cut function removing every edge that asserts a literal matched by any of ms
+// (directly or as a consequence of the order axioms).
 func (e *Eng) CutLits(ms ...LitM) func(b *ssa.BasicBlock, succ int) bool {
 	return func(b *ssa.BasicBlock, succ int) bool {
 		l, ok := e.EdgeLit(b, succ)
 		if !ok {
 			return false
 		}
-		for _, m := range ms {
-			if m.F(l) {
-				return true
+		for _, c := range consequences(l) {
+			for _, m := range ms {
+				if m.F(c) {
+					return true
+				}
 			}
 		}
 		return false
@@ -674,10 +999,12 @@ func (e *Eng) CutContradicting(assume ...LitM) func(b *ssa.BasicBlock, succ int)
 		if !ok {
 			return false
 		}
-		nl := Lit{Atom: l.Atom, Pos: !l.Pos, Alt: l.Alt}
-		for _, m := range assume {
-			if m.F(nl) {
-				return true
+		for _, c := range consequences(l) {
+			nl := Lit{Atom: c.Atom, Pos: !c.Pos, Alt: c.Alt}
+			for _, m := range assume {
+				if m.F(nl) {
+					return true
+				}
 			}
 		}
 		if l.Pos {
